@@ -88,19 +88,21 @@ def shards(tier, seed):
 # scenarios of a run (same list in every shard; the kill points are what is sharded)
 
 def plan(tier, seed):
-    """[(si, kind, scale, strace?)] -- scenario si is generated from Random((seed, si))."""
+    """[(si, kind, scale, strace?)] -- scenario si is generated from Random((seed, si)).
+    quick: 4 instances of each of the 8 kinds, ~9 pages, line/op kill points only.
+    thorough: 14 instances of each kind, 6..40 pages; the instances of round 2 and 3 (14 and 24 pages) also get
+    every file-mutating syscall as a kill point.  VERIF_C11_REPS overrides the number of rounds (dev/testing)."""
     out = []
-    if tier == "quick":
-        reps, scale = 3, 9
-    else:
-        reps, scale = 14, 9
+    reps = {"quick": 4, "thorough": 14}[tier]
+    if os.environ.get("VERIF_C11_REPS"):
+        reps = int(os.environ["VERIF_C11_REPS"])
     si = 0
     for rep in range(reps):
         for kind in S.KINDS:
-            sc = scale
+            sc = 9
             if tier == "thorough":
                 sc = [6, 9, 14, 24, 40][rep % 5]
-            out.append((si, kind, sc, tier == "thorough" and rep < 2))
+            out.append((si, kind, sc, tier == "thorough" and rep in (2, 3)))
             si += 1
     return out
 
@@ -276,16 +278,16 @@ def victim_child(tpl, case, kill_at, log):
         os._exit(3)
 
 
-def record(tpl, base):
+def record(tpl, base, name="rec"):
     """Recording run: list of kill points [(fn, line)] of the victim; leaves its final files in the case dir."""
-    case = new_case(tpl, base, "rec")
+    case = new_case(tpl, base, name)
 
     def child():
         a0 = anchors.snapshot()
         log = []
         victim_child(tpl, case, -1, log)
         return {"log": log, "anchors": _delta(anchors.snapshot(), a0)}
-    res, st = fork_collect(child)
+    res, st = fork_collect(child, 60)
     return case, res, st
 
 
@@ -548,7 +550,7 @@ class Monitor:
             # victim started, so it gets that verdict's signature; later steps are not judged
             obs.count("victim.own-open-restored-wrongly")
             sig = self.pre_state_sig(tpl) or "restore-wrong|victim-open-content-unexpected|cause=unidentified"
-            msg = "victim's own Wtp(): %s; kill point %s; files at kill %s" % (model.tainted, point_desc, json.dumps(files))
+            msg = "a scenario process' own Wtp(): %s; kill point %s; files at kill %s" % (model.tainted, point_desc, json.dumps(files))
             obs.violation(sig, msg, dict(casekey))
             obs.count("outcome.violation-in-victim-open")
             obs.case(json.dumps(casekey), nontrivial=False)
@@ -608,16 +610,41 @@ class Monitor:
         for k, v in scn["tags"].items():
             obs.add("scenario-tags", "%s=%s" % (k, v))
         rcase, rec, st = record(tpl, sdir)
+        if rec and rec.get("hang"):
+            # once more, to rule out a slow machine
+            shutil.rmtree(rcase, ignore_errors=True)
+            rcase, rec, st = record(tpl, sdir, "rec2")
         if not rec or "log" not in rec:
-            # the unkilled victim failed: report through the normal path (scenario-step-raises / inconclusive)
+            # the unkilled victim failed
             marks = S.read_marks(os.path.join(rcase, "marks"))
-            if any(m[0] == "exc" for m in marks):
-                self.evaluate(tpl, rcase, {"seed": seed, "tier": tier, "si": si, "kind": kind, "scale": scale, "mode": "line", "k": 0},
-                              "unkilled run", True, False)
+            ck = {"seed": seed, "tier": tier, "si": si, "kind": kind, "scale": scale, "mode": "line", "k": 0}
+            res = []
+            if rec and rec.get("hang"):
+                op, inner = "?", ""
+                scripts = list(scn["setup"]) + [scn["victim"]]
+                pi = -1
+                for m in marks:
+                    if m[0] == "proc":
+                        op, inner = "?", ""
+                        pi += 1
+                    elif m[0] == "op":
+                        op = scripts[pi][m[1]][0] if m[2] == "b" else op
+                        inner = ""
+                    elif m[0] in ("bb", "cb"):
+                        inner = "/in=" + {"bb": "backup_db", "cb": "commit"}[m[0]]
+                    elif m[0] in ("be", "ce"):
+                        inner = ""
+                sig = "scenario-step-hangs|op=%s%s" % (op, inner)
+                msg = "the victim (not killed) did not finish within 60 s, twice; last marks %s" % json.dumps(marks[-4:])
+                obs.violation(sig, msg, ck)
+                obs.count("outcome.violation")
+                res.append((sig, msg))
+            elif any(m[0] == "exc" for m in marks):
+                res = self.evaluate(tpl, rcase, ck, "unkilled run", True, False) or []
             else:
                 obs.inconclusive.append("scenario %d (%s): recording run failed %r %r" % (si, kind, rec, st))
             shutil.rmtree(sdir, ignore_errors=True)
-            return []
+            return res
         log = rec["log"]
         N = len(log)
         self.add_anchors(rec.get("anchors"))
@@ -769,7 +796,24 @@ def replay(case):
     mon = Monitor(obs, base)
     res = mon.run_scenario(case["seed"], case["tier"], case["si"], case["kind"], case["scale"], False, 0, 1, only=case)
     shutil.rmtree(base, ignore_errors=True)
-    out = {"violations": [[s, m] for s, m in res] + [[v["sig"], v["msg"]] for v in obs.violations.values()
-                                                      if v["sig"].startswith("scenario-step-raises")],
-           "counters": obs.counters, "inconclusive": obs.inconclusive}
-    return out
+    scn = scenario(case["seed"], case["si"], case["kind"], case["scale"])
+
+    def brief(script):
+        o = []
+        for op in script:
+            if op[0] == "add":
+                o.append("add_page(%r, %d bytes)" % (op[1][0], len(op[1][2] or "")))
+            elif op[0] == "override":
+                o.append("override[%s via %s: %d pages]" % (op[1], op[2], len(op[3])))
+            else:
+                o.append(op[0])
+        return o
+    seen = set()
+    vio = []
+    for s_, m_ in res:
+        if (s_, m_) not in seen:
+            seen.add((s_, m_))
+            vio.append([s_, m_])
+    return {"violations": vio, "scenario": {"tags": scn["tags"], "setup_processes": [brief(x) for x in scn["setup"]],
+                                            "victim_process": brief(scn["victim"])},
+            "counters": obs.counters, "inconclusive": obs.inconclusive}
